@@ -7,6 +7,22 @@ import TshVerif.Sem.Bash
 namespace Tsh.Sem2
 open Tsh Tsh.Bash Tsh.Sem
 
+/-- the prefix of everything function number `k` owns -/
+def fnPrefix (k : Nat) : String := "f" ++ Nat.repr k ++ "_"
+
+/-- looks like a name the converter builds for function-local data: `f<digits>_…` -/
+def mangledLike (x : String) : Bool :=
+  match x.toList with
+  | 'f' :: rest =>
+      let ds := rest.takeWhile Char.isDigit
+      !ds.isEmpty && (rest.drop ds.length).head? == some '_'
+  | _ => false
+
+/-- names a program may use: identifiers that are neither the compiler's (`_…`) nor shaped like mangled names -/
+def goodName2 (x : String) : Bool := goodName x && !mangledLike x
+
+def rvName (i : Nat) : String := "_rv" ++ Nat.repr i
+
 /-- block structure of a script -/
 inductive Cmd
   | simple (l : Line)
